@@ -551,6 +551,8 @@ def validate_literal_fold(req):
         exp = {"Abs": abs(x), "Conj": x.conjugate() if isinstance(x, complex) else x,
                "Real": x.real if isinstance(x, complex) else x,
                "Imag": x.imag if isinstance(x, complex) else 0}[info["unary_literal"]]
+    elif "fold_ref" in info:
+        exp = info["fold_ref"]
     elif "math_literal" in info:
         nm, x = info["math_literal"]
         fn = {"ln": "log"}.get(nm, nm)
@@ -705,7 +707,8 @@ def main(run):
         if value is False:
             bump("value-excluded(floating point)")
             if not validate_literal_fold(req):
-                violation(req, "literal folding returns a wrong literal", {"observed": str(req.out)})
+                violation(req, "literal folding returns a wrong literal",
+                          {"observed": str(req.out), "expected": str(req.info.get("fold_ref", ""))})
                 continue
         # requests in the class of a known finding: replayed on the real code.  A request that still fails is a
         # KNOWN-FINDING while the finding is listed as open (the defect-faithful model must reproduce the wrong
